@@ -455,10 +455,87 @@ def unit_enforce_layer(ctx):
                         expected='accepted and held as the converted value iff it is within the published bounds', observed=rp.show(c['obs']))
 
 
+STRING_TEXTS = ('plain.txt', 'two words.csv', 'C:\\Program Files\\x y.csv', '12 files', 'out 5 meter', '3 USD', 'a  b', '7')
+
+
+def string_layer(ctx):
+    """every schema entry of type string: the real ReadParameter of every accepting class holds the text verbatim, whatever
+    it contains (blanks, digits, unit-looking suffixes)"""
+    import contextlib, copy, io
+    from geophires_x.Parameter import ParameterEntry, ReadParameter
+    rows, d = tables(ctx)
+    model = paramtable.dummy_model()
+    objs, idx = dict(paramtable.sources(model)), paramtable.index()
+    cases = []
+    for prog, (ck, gk, _, _, _) in PROGRAMS.items():
+        if True:          # every strParameter of every class (their declared json type is "string", published or - the 30 - not yet)
+            for r in rows:
+                if r['cls'] in d[ck] and r['kind'] == 'KStr':
+                    for text in STRING_TEXTS:
+                        q = copy.deepcopy(objs[r['cls']].ParameterDict[r['name']])
+                        held = err = None
+                        try:
+                            with contextlib.redirect_stdout(io.StringIO()):
+                                ReadParameter(ParameterEntry(Name=r['name'], sValue=text, raw_entry=f'{r["name"]}, {text}'), q, model)
+                            held = q.value if isinstance(q.value, str) else None
+                        except Exception as ex:  # noqa
+                            err = f'{type(ex).__name__}: {ex}'[:160]
+                        cases.append(dict(prog=prog, cls=r['cls'], name=r['name'], i=idx[(r['cls'], r['name'])], text=text, held=held, err=err))
+    cs = paramtable.cs
+
+    def body(lo, hi):
+        return 'bad (scase_ok param_table) [\n ' + ';\n '.join(
+            f'({c["i"]}%nat, {cs(c["text"])}, ' + ('None' if c['held'] is None else f'Some {cs(c["held"])}') + ')' for c in cases[lo:hi]) + ']'
+    badi = fw.kernel_eval(ctx, 'strings', REQ, body, len(cases), shard=400, open_scope='string_scope') if cases else []
+    ctx.count('enforce-strings', evaluations=len(cases), nontrivial_keys=[(c['cls'], c['name'], c['text']) for c in cases],
+              parameters=len({c['name'] for c in cases}))
+    for k in badi:
+        c = cases[k]
+        ctx.violate('property', f'enforce-string:{c["prog"]}:{c["name"]}', f'{c["prog"]} schema entry {c["name"]!r} has type string; the reader of {c["cls"]} given '
+                    f'{c["text"]!r}: ' + (f'raised {c["err"]}' if c['err'] else f'holds {c["held"]!r}'),
+                    inp={'check': 'enforce-string', 'program': c['prog'], 'name': c['name'], 'cls': c['cls'], 'text': c['text']},
+                    expected='the text is held verbatim', observed=c['err'] or c['held'])
+
+
+def stored_reports_layer(ctx):
+    """every committed report under tests/examples (*.out: all report layouts - AGS/CLGS, SUTRA, SBT, add-ons, S-DAC-GT ...)
+    parsed by the client: each result-schema field whose label a report prints with a value is extracted with a value"""
+    from geophires_x_client import GeophiresXResult
+    rows, d = tables(ctx)
+    fields = [(e['category'], e['field']) for e in d['gen_result']]
+    files = sorted((fw.REPO / 'tests' / 'examples').glob('*.out')) + sorted((fw.REPO / 'tests').glob('*.out'))
+    items = []
+    for f in files:
+        text = f.read_text(encoding='UTF-8', errors='replace')
+        if 'CASE REPORT' not in text or 'HIP' in text[:400]:
+            continue
+        try:
+            got = GeophiresXResult(str(f)).result
+        except Exception as ex:  # noqa
+            ctx.violate('property', f'stored-report:{f.name}:<parse>', f'the client cannot parse the committed report {f.name}: {ex!r}', inp={'check': 'stored-report', 'file': f.name})
+            continue
+        printed = printed_labels(text, fields)
+        extracted = [(c, n) for c, n in fields if isinstance(got.get(c, {}).get(n), dict) and got[c][n].get('value') is not None
+                     or isinstance(got.get(c, {}).get(n), (str, int, float))]
+        items.append((f, text, got, printed, extracted))
+    cs = paramtable.cs
+    pl = lambda l: '[' + '; '.join(f'({cs(c)}, {cs(n)})' for c, n in l) + ']'
+    term = 'bad (fun x => report_ok gen_result (fst x) (snd x)) [\n ' + ';\n '.join(f'({pl(p)}, {pl(x)})' for _, _, _, p, x in items) + ']'
+    badi = kbad(ctx, 'stored-reports', term, len(items))
+    ctx.count('stored-reports', evaluations=len(items), nontrivial_keys=[(f.name, c, n) for f, _, _, p, _ in items for c, n in p], files=len(items))
+    for k in badi:
+        f, text, got, printed, extracted = items[k]
+        for c, n in sorted(set(printed) - set(extracted)):
+            line = next((ln.strip() for ln in text.splitlines() if ln.strip().startswith(n + ':') or ln.strip().startswith(n + ' =')), '')
+            ctx.violate('property', f'stored-report-field:{c}:{n}', f'committed report {f.name} prints {line!r} but the client returns {got.get(c, {}).get(n)!r} for '
+                        f'result-schema field {c!r}/{n!r}', inp={'check': 'stored-report', 'file': f.name, 'category': c, 'field': n}, expected='extracted with a value',
+                        observed=got.get(c, {}).get(n))
+
+
 def correspondence(ctx, proofs_ok=True):
     paramtable.build_gen(ctx, ('Gen/ParamTable.vo', 'Gen/SchemaTables.vo'))
     import time
-    for layer in (names_layer, fields_layer, committed_layer, result_layer, enforce_layer, list_layer, rst_layer, reports_layer, unit_enforce_layer):
+    for layer in (names_layer, fields_layer, committed_layer, result_layer, enforce_layer, list_layer, rst_layer, reports_layer, unit_enforce_layer, string_layer, stored_reports_layer):
         t = time.time()
         layer(ctx)
         ctx.note(f'{layer.__name__}: {time.time() - t:.1f} s')
@@ -470,7 +547,7 @@ def replay(ctx, data):
         g(ctx)
     paramtable.build_gen(ctx, ('Gen/ParamTable.vo', 'Gen/SchemaTables.vo'))
     layer = {'names': names_layer, 'field': fields_layer, 'committed': committed_layer, 'result-field': result_layer, 'enforce': enforce_layer,
-             'enforce-list': list_layer, 'rst': rst_layer, 'report': reports_layer, 'enforce-units': unit_enforce_layer}[inp['check']]
+             'enforce-list': list_layer, 'rst': rst_layer, 'report': reports_layer, 'enforce-units': unit_enforce_layer, 'enforce-string': string_layer, 'stored-report': stored_reports_layer}[inp['check']]
     layer(ctx)
     rows, d = tables(ctx)
     name = inp.get('name') or inp.get('field')
